@@ -302,26 +302,20 @@ func c19Scenarios(thorough bool) []*scenario {
 		}
 	}
 	if thorough {
-		// three threads x <= 2 ops over the A-operations and Clear
-		aops := []regOp{regAlphabet[0], regAlphabet[1], regAlphabet[3], regAlphabet[5], regAlphabet[6]}
+		// three threads x exactly 2 ops over {Reg(A,1), Get(A), Rem(A), Clear}: every multiset of three programs
+		aops := []regOp{regAlphabet[0], regAlphabet[3], regAlphabet[5], regAlphabet[6]}
 		var ap [][]regOp
-		for _, a := range aops {
-			ap = append(ap, []regOp{a})
-		}
 		for _, a := range aops {
 			for _, b := range aops {
 				ap = append(ap, []regOp{a, b})
 			}
 		}
-		for init := 0; init < 2; init++ {
-			for i := range ap {
-				for j := i; j < len(ap); j++ {
-					for k := j; k < len(ap); k++ {
-						if len(ap[i])+len(ap[j])+len(ap[k]) < 5 {
-							continue // covered above or cheap duplicates; keep the heavy ones
-						}
-						out = append(out, registryScenario(init, [][]regOp{ap[i], ap[j], ap[k]}))
-					}
+		for i := range ap {
+			for j := i; j < len(ap); j++ {
+				for k := j; k < len(ap); k++ {
+					sc := registryScenario(0, [][]regOp{ap[i], ap[j], ap[k]})
+					sc.Name = "3x2 " + sc.Name
+					out = append(out, sc)
 				}
 			}
 		}
